@@ -2521,9 +2521,9 @@ class Circuit(AbstractCircuit):
         for i, op in removals:
             if op not in copy._moments[i].operations:
                 raise ValueError(f"Can't remove {op} @ {i} because it doesn't exist.")
-            copy._moments[i] = Moment(
-                old_op for old_op in copy._moments[i].operations if op != old_op
-            )
+            remaining = list(copy._moments[i].operations)
+            remaining.remove(op)  # one listed removal deletes one operation, even if another equals it
+            copy._moments[i] = Moment(remaining)
         self._moments = copy._moments
         self._mutated()
 
@@ -2546,9 +2546,9 @@ class Circuit(AbstractCircuit):
         for i, op, new_op in replacements:
             if op not in copy._moments[i].operations:
                 raise ValueError(f"Can't replace {op} @ {i} because it doesn't exist.")
-            copy._moments[i] = Moment(
-                old_op if old_op != op else new_op for old_op in copy._moments[i].operations
-            )
+            replaced = list(copy._moments[i].operations)
+            replaced[replaced.index(op)] = new_op  # replace one operation per listed replacement
+            copy._moments[i] = Moment(replaced)
         self._moments = copy._moments
         self._mutated()
 
